@@ -44,6 +44,8 @@ pub fn meta(prop: &str) -> Option<Meta> {
         "C10" => m("exploration", "block-source responses of 1-6 elements delivered through the real heartbeat path with one bad element (18 classes: random/empty/truncated bytes, trailing bytes, duplicates of unstable/anchor/stable blocks, orphan, child of a stable-only ancestor, future/old timestamp, wrong or excessive bits, bad PoW, bad merkle root, no coinbase, no transactions, duplicated transactions) at every position, valid blocks before and after it, and garbage announced headers; distinct = (class, position, suffix length, tree size)", 35.0, 600.0),
         "C14" => m("exploration", "heartbeat-path histories with announced headers on the best chain, on forks, chained up to 10 deep, re-announced, followed by garbage, delivered later, going stale, passed by the stable height; at every state the full matrix 7 endpoints x api_access x 3 requested networks x disable_api_if_not_fully_synced, judged by must/may sets of announced headers; distinct = (endpoint, flags, network match, outcome, certain and possible header lead over the best height)", 35.0, 600.0),
         "C16" => m("exploration", "per-call conservation monitor on the mock cycles ledger (hook): random and default fee tables (zeros, maximum equal to base, maximum below the computed fee) x instruction counts set through the mock counter x error outcomes x attached cycles {maximum, maximum-1, more, 0}; plus the finite comparison of the client's cost_* constants with the default tables (3 networks x 5 endpoints, send_transaction lengths 0..10^6 stepped); distinct = (endpoint, charge, enough cycles, trapped, request error, instructions)", 25.0, 300.0),
+        "C17" => m("exploration", "the real fetch -> storage -> health -> target path of the watchdog (hook round()) against ic_http mocks whose bodies go through the real transforms: for each of the 5 targets, random multisets of explorer results (heights in a window around the thresholds, far outliers, non-200, transport errors, garbage, null), canister heights incl. unknown, 1-3 rounds (stale heights from earlier rounds), permutations over providers; decision compared with the rule of the statement; distinct = (target, height offsets, canister offset, decision)", 25.0, 300.0),
+        "C18" => m("exploration", "every endpoint transform (hook enumerator) on per-explorer shaped and plain payloads with typed height leaves, statuses 0..599 and 2^128-1, random headers; relations: output invariant under header changes, JSON whitespace, member order at every level and freshly named extra members; typed mutation of every leaf; raw byte bodies (signs, spaces, overflow, invalid UTF-8, truncated JSON, empty); distinct = (endpoint, shape, output body)", 25.0, 300.0),
         "C19" => m("exploration", "serialisations of generated legacy/segwit transactions and, for each, every truncation, 1-8 byte extensions, prefixes, two transactions back to back, every single-bit flip (small transactions), random bytes, zero-input encodings; access flag x requested network matrix; verdict compared with an own strict BIP144 parser (three-valued) and the forward log (hook); distinct = (family, verdict, allowed, length)", 25.0, 300.0),
         "C11" => m("exploration", "(1) required-target computation (hook) on synthetic (time,bits) chains around multiples of 2016 with clamps, negative timespans and minimum-difficulty runs on three networks, compared numerically with an own GetNextWorkRequired over 256-bit integers; (2) accept/reject decisions of validate_header on PoW-valid headers (2633 real mainnet headers, harness-mined easy headers) against scripted histories that make each rule pass or fail; (3) replay of the real mainnet chain across the retarget at 588672 with field perturbations; (4) mined regtest headers end-to-end through the canister; distinct = (network, deciding rule, retarget boundary, bits)", 35.0, 600.0),
         "C12" => m("exploration", "valid regtest blocks with every transaction count 1..40 (legacy and witness-carrying) and, for each, the complete families of merkle-preserving duplications (every level with an odd group count, and compositions), adjacent swaps, single removals, coinbase moved/duplicated/absent, replaced header root; verdict of BlockValidator::validate_block and of state::insert_block compared with an own merkle/uniqueness checker over the serialised bytes; distinct = (family, tx count, resulting tx count, witness)", 30.0, 600.0),
@@ -79,6 +81,8 @@ pub fn run(ctx: &mut Ctx) {
             crate::c16::lane_client_table(ctx);
             crate::c16::lane_cycles(ctx);
         }
+        "C17" => crate::wd::lane_decision(ctx),
+        "C18" => crate::wd::lane_transforms(ctx),
         "C19" => crate::c19::lane_send(ctx),
         "C11" => {
             let b = ctx.budget_s;
